@@ -33,8 +33,7 @@ __CPROVER_assigns (__CPROVER_object_upto (wp, (xn + xn) * 8), g_mul_calls, g_ax,
 __CPROVER_ensures (V_MUL_POST (wp, xp, xn, xp, xn) && g_sq == 1);
 
 void __gmpz_mul (mpz_ptr w, mpz_srcptr u, mpz_srcptr v)
-/* 'w->_mp_alloc * BYTES_PER_MP_LIMB' is int arithmetic in mpz_mul: allocations of 2^28 limbs (2 GiB) or more are outside the contract */
-__CPROVER_requires (V_WF (w) && V_WF (u) && V_WF (v) && V_ABSIZ (u) + V_ABSIZ (v) < (1L << 28) && V_ALLOC (w) < (1L << 28) && V_GHOSTS_OK)
+__CPROVER_requires (V_WF (w) && V_WF (u) && V_WF (v) && V_ABSIZ (u) + V_ABSIZ (v) < V_ZMAX && V_GHOSTS_OK)
 __CPROVER_assigns (*w, __CPROVER_object_whole (V_PTR (w)), g_ci, g_co, g_mul_calls, g_ax, g_ay, g_axn, g_ayn, g_sq, __CPROVER_alloca_object)
 __CPROVER_frees (V_PTR (w))
 __CPROVER_ensures (V_WF_AT (w, gk));
